@@ -234,7 +234,12 @@ func evaluateGlobalExprAsFloat(module *Module, handle ExpressionHandle, resolved
 		if !BinaryFoldableAsFloat(k.Op) {
 			return 0, fmt.Errorf("operator %d is not supported in an override initializer", k.Op)
 		}
-		return EvalBinaryFloat(k.Op, left, right), nil
+		result := EvalBinaryFloat(k.Op, left, right)
+		if k.Op == BinaryDivide && globalExprIsInteger(module, k.Left) {
+			// integer division truncates at every step: (7 / 2) * 2 is 6, not 7
+			result = math.Trunc(result)
+		}
+		return result, nil
 	case ExprUnary:
 		val, err := evaluateGlobalExprAsFloat(module, k.Expr, resolved)
 		if err != nil {
@@ -251,6 +256,41 @@ func evaluateGlobalExprAsFloat(module *Module, handle ExpressionHandle, resolved
 	default:
 		return 0, fmt.Errorf("cannot evaluate global expression of kind %T", k)
 	}
+}
+
+// globalExprIsInteger reports whether a global expression has an integer type, judged by
+// its leftmost leaf (WGSL has no implicit conversion between integer and float operands).
+func globalExprIsInteger(module *Module, handle ExpressionHandle) bool {
+	if int(handle) >= len(module.GlobalExpressions) {
+		return false
+	}
+	isInt := func(ty TypeHandle) bool {
+		if int(ty) >= len(module.Types) {
+			return false
+		}
+		sc, ok := module.Types[ty].Inner.(ScalarType)
+		return ok && (sc.Kind == ScalarSint || sc.Kind == ScalarUint)
+	}
+	switch k := module.GlobalExpressions[handle].Kind.(type) {
+	case Literal:
+		switch k.Value.(type) {
+		case LiteralI32, LiteralU32, LiteralI64, LiteralU64, LiteralAbstractInt:
+			return true
+		}
+	case ExprOverride:
+		if int(k.Override) < len(module.Overrides) {
+			return isInt(module.Overrides[k.Override].Ty)
+		}
+	case ExprConstant:
+		if int(k.Constant) < len(module.Constants) {
+			return isInt(module.Constants[k.Constant].Type)
+		}
+	case ExprBinary:
+		return globalExprIsInteger(module, k.Left)
+	case ExprUnary:
+		return globalExprIsInteger(module, k.Expr)
+	}
+	return false
 }
 
 // LiteralToFloat converts a LiteralValue to float64.
